@@ -5,10 +5,11 @@
 # depends on that worktree. Used while something else (a thorough sweep) is building from /repo.
 set -u
 PATCH="$(realpath "$1")"; shift
-W=/tmp/mw3/repo; H=/tmp/mh3
-if [ ! -d $W ]; then mkdir -p /tmp/mw3; git -C /repo worktree add -q --detach $W HEAD || exit 2; cp /repo/Cargo.lock $W/Cargo.lock 2>/dev/null; fi
+T=${SCRATCH_TAG:-}; W=/tmp/mw3$T/repo; H=/tmp/mh3$T
+if [ ! -d $W ]; then mkdir -p /tmp/mw3$T; git -C /repo worktree add -q --detach $W HEAD || exit 2; cp /repo/Cargo.lock $W/Cargo.lock 2>/dev/null; fi
 mkdir -p $H
-rsync -a --exclude 'target*' /verif/harness $H/ && cp /verif/known_findings.json /verif/check /verif/crosscheck.py $H/
+SRC=${VERIF_SRC:-/verif}
+rsync -a --delete --exclude 'target*' $SRC/harness $H/ && cp $SRC/known_findings.json $SRC/check $SRC/crosscheck.py $H/
 sed -i "s#path = \"/repo\"#path = \"$W\"#" $H/harness/Cargo.toml
 sed -i "s#cp /repo/Cargo.lock#cp $W/Cargo.lock#" $H/check
 git -C $W checkout -q -- . ; git -C $W checkout -q --detach "$(git -C /repo rev-parse HEAD)"
